@@ -324,7 +324,7 @@ impl Pattern {
             }
         }
 
-        let results: Vec<_> = paths_so_far
+        let mut results: Vec<_> = paths_so_far
             .into_iter()
             .filter_map(|path| {
                 if let Some(filter) = path_filter
@@ -350,6 +350,10 @@ impl Pattern {
                 Some(path_ref.to_string())
             })
             .collect();
+
+        // N.B. The result list as a whole is sorted as strings; sorting each directory's
+        // entries as paths (component-wise) puts `a/x` before `a b/x` and `a.d/x`.
+        results.sort();
 
         tracing::debug!(target: trace_categories::PATTERN, "  => results: {results:?}");
 
